@@ -17,7 +17,7 @@ from . import _fn
 LEVEL = "model_checking"
 MANIFEST = {
     "technique": "TLA+ specification of the size grammar and exact decimal denotation (SizeParse.tla, digit-sequence arithmetic); scanner step machine model-checked by TLC against the declarative grammar (SizeScan.tla); TLC enumerates the input words and judges every recorded call of the real parsers and of the real job validator (call/return conformance, B3)",
-    "text": "Exhaustive over a stated bounded universe of size strings: every number with up to 2 integer and 3-4 fractional digits over a digit subset x every unit spelling, all words over the token alphabet up to a stated length (grammar / client-server agreement), and long numbers beyond float precision. Expected values are computed by TLC with exact decimal digit arithmetic (no floats, no 32-bit overflow). Bounded-universe model checking of an input-quantified property.",
+    "text": "Exhaustive over a stated bounded universe of size strings: every number with up to 1-2 integer and 3-4 fractional digits over a digit subset x every unit spelling, all words over the token alphabet up to a stated length (grammar / client-server agreement), and long numbers beyond float precision. Expected values are computed by TLC with exact decimal digit arithmetic (no floats, no 32-bit overflow). Bounded-universe model checking of an input-quantified property.",
     "note": "Trusts: TLC + CommunityModules Json/IOUtils; the token->character table and the int->digit transport in checks/c25.py. Strings longer than the bounds, and digits outside the chosen digit subset in the exhaustive part, are covered only by the sampled families (all two-digit numbers, .abc fractions, long numbers).",
     "design_ref": "DESIGN.md section 5, C25; section 7 item 1",
 }
@@ -71,8 +71,8 @@ def run(ctx):
         return
 
     # ---- (2) B3: TLC enumerates inputs, real functions are called, TLC judges --------------------------------
-    env = {"SZ_DSET": "q" if ctx.quick else "t", "SZ_ILEN": 2, "SZ_FLEN": 3 if ctx.quick else 4,
-           "SZ_FULL": 4 if ctx.quick else 5, "SZ_CORE": 5 if ctx.quick else 6,
+    env = {"SZ_DSET": "q" if ctx.quick else "t", "SZ_ILEN": 1 if ctx.quick else 2, "SZ_FLEN": 3 if ctx.quick else 4,
+           "SZ_FULL": 4, "SZ_CORE": 4 if ctx.quick else 6,
            "SZ_INPUTS": wd / "inputs.ndjson", "SZ_CASES": wd / "cases.ndjson", "SZ_VERDICT": wd / "verdict.json"}
     tlc.evaluate(wd, "SizeParseGen", env=env, timeout=1800)
     words = [json.loads(l)["w"] for l in (wd / "inputs.ndjson").read_text().splitlines() if l.strip()]
@@ -89,7 +89,7 @@ def run(ctx):
             rec["v" + k] = c["v" + k]
         cases.append(c)
         lines.append(json.dumps(rec))
-    verdicts = _fn.sharded_verdict(ctx, ["fn"], "SizeParseVerdict", lines, env, "SZ_CASES", "SZ_VERDICT", 6 if ctx.quick else 12)
+    verdicts = _fn.sharded_verdict(ctx, ["fn"], "SizeParseVerdict", lines, env, "SZ_CASES", "SZ_VERDICT", 3 if ctx.quick else 12)
     in_grammar = {k: sum(v["in_grammar"][k] for _o, v in verdicts) for k in KINDS}
     if min(in_grammar.values()) == 0:
         raise RuntimeError("vacuous: the specification accepts nothing")
@@ -110,7 +110,7 @@ def run(ctx):
     ctx.cov.update(traces_validated_against_impl=3 * len(cases), evaluations=6 * len(cases), distinct_nontrivial=nacc,
                    exhaustive=True,
                    rule=f"TLC enumerates: numbers with <= {env['SZ_ILEN']} integer and <= {env['SZ_FLEN']} fractional digits over the digit set "
-                        f"{'0159' if ctx.quick else '01359'} x all 23 unit endings; all words over 12 tokens to length {env['SZ_FULL']} and over 7 core "
+                        f"{'0159' if ctx.quick else '01359'} x all 23 unit endings; all words over {10 if ctx.quick else 12} tokens to length {env['SZ_FULL']} and over 7 core "
                         f"tokens to length {env['SZ_CORE']}; long numbers (16-23 digits), all two-digit numbers, .abc fractions, tier names. Each word is "
                         "parsed by the three real parsers and validated by the real job validator (6 evaluations per word); TLC judges the 3 "
                         "call/return records per word; non-trivial = (word, kind) pairs inside the grammar (exact value demanded)")
